@@ -218,6 +218,16 @@ func (*MedianAggregatorFunction).Result
   atreturn even-count-mean-of-two-middles: len(f.values) > 0 && len(f.values) % 2 == 0 ==> result == boxof((sorted[len(f.values) / 2 - 1] + sorted[len(f.values) / 2]) / 2.0, float64)
 
 // ---- percentile (rank floor(p*(n-1)) of the ordered values; rule read from the code)
+// percentile(field, p): p is the second argument, a number of [0, 1] with both ends allowed (p = 1 is the maximum);
+// anything else is refused, and a refused p is never silently replaced
+func (*PercentileAggregatorFunction).Init
+  props C03 C01 C04 C07 C09
+  modifies f.p
+  ensures a-number-within-zero-and-one-both-ends-included-becomes-the-rank: len(args) >= 2 && hasType(args[1], float64) && realval(args[1]) >= 0.0 && realval(args[1]) <= 1.0 ==> result == nil && f.p == realval(args[1])
+  ensures a-whole-number-zero-or-one-is-taken-too: len(args) >= 2 && (hasType(args[1], int) || hasType(args[1], int64)) && intval(args[1]) >= 0 && intval(args[1]) <= 1 ==> result == nil && f.p == float64(intval(args[1]))
+  ensures a-rank-outside-the-range-is-refused: len(args) >= 2 && hasType(args[1], float64) && (realval(args[1]) < 0.0 || realval(args[1]) > 1.0) ==> result != nil
+  ensures without-a-rank-or-with-a-rank-that-is-no-number-it-is-refused: len(args) < 2 || (len(args) >= 2 && !hasType(args[1], float64) && !hasType(args[1], int) && !hasType(args[1], int64)) ==> result != nil
+
 func (*PercentileAggregatorFunction).Add
   props C03
   modifies f.values
@@ -315,6 +325,32 @@ func (*ExprBridge).CreateEnhancedExprEnvironment$2
   before matchesLikePattern like-match-takes-the-text-first-and-the-pattern-second: $arg1 == $p0 && $arg2 == $p1
   observe verdict := matchesLikePattern
   atreturn the-matchers-verdict-is-the-answer: result == $verdict
+
+immutable ExprBridge: exprEnv
+
+// the bridge is built with its environment map and never gets another one
+func NewExprBridge
+  props C20 C06 C13
+  ensures a-new-bridge-with-an-environment-of-its-own: fresh(result) && result.exprEnv != nil && fresh(result.exprEnv)
+
+pure github.com/expr-lang/expr.Function
+
+// the registry's listing reads the registry and writes nothing
+extern (*FunctionRegistry).ListAll
+  props C20 C06 C13
+
+// the maker of one wrapper: it only builds the closure
+func (*ExprBridge).RegisterStreamSQLFunctionsToExpr$1
+  props C20 C06 C13
+  ensures true
+
+// the environment of wrapped functions is one map shared by every query of the process: it is filled only while the
+// bridge's lock is held for WRITING (a read lock would let two compilations write it at once)
+func (*ExprBridge).RegisterStreamSQLFunctionsToExpr
+  props C20 C06 C13
+  acquires bridge.mutex
+  modifies *
+  loop 1 invariant the-shared-environment-is-written-only-while-the-bridges-lock-is-held-for-writing: wheld(bridge.mutex) && held(bridge.mutex)
 
 // the functions offered to compiled conditions: each name, in lower and in upper case, is bound to a wrapper that runs
 // that very function with the arguments given
@@ -477,6 +513,8 @@ func AnalyticToBool
   option pure
   ensures bools: hasType(v, bool) ==> result == boolval(v)
   ensures null-is-false: v == nil ==> !result
+  ensures the-word-true-in-any-letter-case-is-true-any-other-text-false: hasType(v, string) ==> result == strings.EqualFold(strval(v), "true")
+  ensures what-is-neither-a-boolean-nor-text-is-false: !hasType(v, bool) && !hasType(v, string) ==> !result
 
 func toFloat64Generic
   props C14
